@@ -51,6 +51,15 @@ Definition base_10_len (w : Z) : option Z :=
   | inr a => Some a
   | inl _ => None
   end.
+(** const BASE_10_LEN of the 12 impls: rustc evaluates the loop once per type at
+    compile time; so does Coq here (the table below is the loop's result,
+    [Proofs.BASE_10_LEN_loop] says so) *)
+Definition BASE_10_LEN (t : ity) : option Z :=
+  Eval vm_compute in
+  match t with
+  | I8 | U8 => base_10_len 8 | I16 | U16 => base_10_len 16 | I32 | U32 => base_10_len 32
+  | I64 | U64 | Isize | Usize => base_10_len 64 | I128 | U128 => base_10_len 128
+  end.
 
 (** unsigned_abs on a w-bit signed value: wrapping_abs reinterpreted as unsigned *)
 Definition unsigned_abs (w : Z) (v : Z) : Z := Z.abs v mod 2 ^ w.
@@ -58,14 +67,15 @@ Definition unsigned_abs (w : Z) (v : Z) : Z := Z.abs v mod 2 ^ w.
 (** write_unsigned!: the digit loop
       let mut buf = [0; BASE_10_LEN]; let mut index = buf.len();
       while value != 0 { index -= 1; buf[index] = (value % 10) as u8 + b'0'; value /= 10; }
-    [index] is the structural argument; [acc] = buf[index..].  [index -= 1] at 0
+    [index] is the structural argument; [acc] = buf[index..]; [Z.div_eucl] gives
+    quotient and remainder of the unsigned division at once.  [index -= 1] at 0
     underflows (debug: overflow panic; release: wraps and the store is out of
     bounds): [None]. *)
 Fixpoint digit_loop (index : nat) (value : Z) (acc : list byte) : option (list byte) :=
   if value =? 0 then Some acc
   else match index with
        | O => None
-       | S i => digit_loop i (value / 10) ((value mod 10 + 48) :: acc)
+       | S i => let (q, r) := Z.div_eucl value 10 in digit_loop i q ((r + 48) :: acc)
        end.
 
 (** <[u8]>::chunks(n) (std, documented contract): consecutive pieces of n
@@ -140,22 +150,23 @@ Definition write_str (b : list byte) (s : state) : option state :=
   bind (chunks BUF b) (fun cs => write_chunks cs s).
 
 (** write_unsigned!($t) body (without the debug flush of Writer::write) *)
-Definition write_unsigned (w : Z) (v : Z) (s : state) : option state :=
+Definition write_unsigned (t : ity) (v : Z) (s : state) : option state :=
   if v =? 0 then write_char 48 s
-  else bind (base_10_len w) (fun len =>
+  else bind (BASE_10_LEN t) (fun len =>
        bind (digit_loop (Z.to_nat len) v []) (fun ds => write_bytes ds s)).
 
-(** write_signed!($t): if self < 0 { write_char('-') }  writer.write(&self.unsigned_abs()) *)
-Definition write_signed (w : Z) (v : Z) (s : state) : option state :=
+(** write_signed!($t): if self < 0 { write_char('-') }  writer.write(&self.unsigned_abs())
+    (the unsigned type has the same BASE_10_LEN: integer_common!) *)
+Definition write_signed (t : ity) (v : Z) (s : state) : option state :=
   bind (if v <? 0 then write_char 45 s else Some s) (fun s1 =>
-  bind (write_unsigned w (unsigned_abs w v) s1) (fun s2 => Some (flush_dbg s2))).
+  bind (write_unsigned t (unsigned_abs (bits t) v) s1) (fun s2 => Some (flush_dbg s2))).
 
 (** [wr v] = <T as Writable>::write(&v, writer);  Writer::write(&v) = wr v, then the debug flush.
     Vec: for (i, x) in enumerate { if i != 0 { write_char(' ') } writer.write(x) }
     tuple: writer.write(A); then for each further component write_char(' '); writer.write(..) *)
 Fixpoint wr (v : value) (s : state) : option state :=
   match v with
-  | VInt t z => if is_signed t then write_signed (bits t) z s else write_unsigned (bits t) z s
+  | VInt t z => if is_signed t then write_signed t z s else write_unsigned t z s
   | VStr b => write_str b s
   | VVec l =>
       (fix go (first : bool) (l : list value) (s : state) {struct l} : option state :=
